@@ -507,6 +507,32 @@ func (g *Gen) planDoc(invalid bool) *PlanDoc {
 		}
 		d.Tasks = append(d.Tasks, t)
 	}
+	// titles are matched exactly: two tasks may differ only in case or in
+	// surrounding whitespace, and `after` must hit the right one
+	if n >= 2 && g.R.Chance(1, 5) {
+		k := g.R.Intn(len(d.Tasks))
+		twin := *d.Tasks[k].Title
+		switch g.R.Intn(3) {
+		case 0:
+			twin = twin + " "
+		case 1:
+			twin = " " + twin
+		case 2:
+			twin = strings.ToUpper(twin)
+		}
+		if twin != *d.Tasks[k].Title {
+			t := PlanTask{Title: sp(twin)}
+			if g.R.Chance(1, 2) {
+				t.After = []string{*d.Tasks[g.R.Intn(len(d.Tasks))].Title}
+			}
+			d.Tasks = append(d.Tasks, t)
+			// somebody depends on one of the twins
+			j := g.R.Intn(len(d.Tasks) - 1)
+			if j != k && len(d.Tasks[j].After) == 0 && !dependsOn(d, k, j) {
+				d.Tasks[j].After = append(d.Tasks[j].After, g.oneOf(twin, *d.Tasks[k].Title))
+			}
+		}
+	}
 	// list the tasks in an arbitrary order: `after` may name tasks that appear
 	// later in the document (a DAG need not be written in dependency order)
 	if g.R.Chance(2, 3) {
@@ -548,4 +574,30 @@ func (g *Gen) planDoc(invalid bool) *PlanDoc {
 		}
 	}
 	return d
+}
+
+// dependsOn: does task a (index) transitively depend on task b in the document?
+func dependsOn(d *PlanDoc, a, b int) bool {
+	idx := map[string]int{}
+	for i, t := range d.Tasks {
+		idx[*t.Title] = i
+	}
+	seen := map[int]bool{}
+	var walk func(int) bool
+	walk = func(i int) bool {
+		if i == b {
+			return true
+		}
+		if seen[i] {
+			return false
+		}
+		seen[i] = true
+		for _, x := range d.Tasks[i].After {
+			if j, ok := idx[x]; ok && walk(j) {
+				return true
+			}
+		}
+		return false
+	}
+	return walk(a)
 }
